@@ -141,6 +141,9 @@ Definition bin_op (n : node) : option string :=
   | _ => None
   end.
 
+Definition is_op (view : node -> option string) (op : string) (n : node) : bool :=
+  match view n with Some o => String.eqb o op | None => false end.
+
 (** [replace_expressions_in_expr] with [ExpandArrays::No]. *)
 Definition replace_expr_noexpand (c : config) (e : node) (im : ident_mode) (span : sp)
            (ik : ident_kind) (a : acc) (p : pstate) : node * acc * pstate :=
@@ -268,7 +271,9 @@ Definition assign_transform (c : config) (e : node) (p : pstate) : option node *
       if is_pat_target lhs then (None, p)   (* unreachable from parsed JS: `[a] += x` is a syntax error *)
       else
         let span := (lo, hi) in
-        let binary := mk_bin span "+" (simple_target_to_expr lhs) rhs in
+        (* a sum that is still a sum keeps its grouping: the printer does not parenthesise a right operand *)
+        let right := if is_op bin_op "+" rhs then mk_paren (span_of rhs) rhs else rhs in
+        let binary := mk_bin span "+" (simple_target_to_expr lhs) right in
         match binary_transform c binary p with
         | (Some e', p1) => (Some (mk_assign span "=" lhs e'), p1)
         | (None, p1) => (None, p1)
@@ -745,9 +750,6 @@ Definition callee_is_expr (call : node) : bool :=
   | Some (_, callee, _, _) => negb (is_kind KSuper callee || is_kind KImport callee)
   | None => false
   end.
-
-Definition is_op (view : node -> option string) (op : string) (n : node) : bool :=
-  match view n with Some o => String.eqb o op | None => false end.
 
 (** The arms of [visit_mut_expr] / the overridden struct visitors, as a classification of the node. *)
 Inductive opclass := OBlock | OIdent | OBin | OAssign | OTpl | OCall | OOptChain | OUnary | OArrow | OOther.
